@@ -21,7 +21,7 @@ func init() {
 	fw.Register(&fw.Property{
 		ID:    "C13",
 		Level: "exploration",
-		Rule: "ENUMERATED size classes x log shapes: shape {empty, chain, chain of only big entries (snapshot spans several 256 KiB UnixFS chunks), fork (2 concurrent writers), 3 writers, containing replicated entries, replication in progress (remote fetches held by the gate so the replicator queue is non-empty at save time), replication in progress whose missing entries stay unreachable afterwards (partition), local writes and merges landing while SaveSnapshot runs, a second handle of the database saving after the first handle (which shares its cache) was closed} x largest payload {0, 1, 1 KiB, 27/36/37/47/48/49 KiB (entry JSON around 65535 bytes after one or two base64 layers), 60 KiB, ~64 KiB, 70 KiB, 200 KiB, 300 KiB; jittered by +-300 bytes in the thorough tier} x store type, with kubo's real UnixFS chunker/reader. SaveSnapshot is called on the live store; when it returns nil a FRESH instance on the same directory calls LoadFromSnapshot (not Load). " +
+		Rule: "ENUMERATED size classes x log shapes: shape {empty, chain, chain of only big entries (snapshot spans several 256 KiB UnixFS chunks), fork (2 concurrent writers), 3 writers, fork / 3 writers whose heads are ALL medium-sized (8-27 KiB each, so that two or three heads together cross the 64 KiB header limit while every single entry is below it), containing replicated entries, replication in progress (remote fetches held by the gate so the replicator queue is non-empty at save time), replication in progress whose missing entries stay unreachable afterwards (partition), local writes and merges landing while SaveSnapshot runs, a second handle of the database saving after the first handle (which shares its cache) was closed} x largest payload {0, 1, 1 KiB, 27/36/37/47/48/49 KiB (entry JSON around 65535 bytes after one or two base64 layers), 60 KiB, ~64 KiB, 70 KiB, 200 KiB, 300 KiB; jittered by +-300 bytes in the thorough tier} x store type, with kubo's real UnixFS chunker/reader. SaveSnapshot is called on the live store; when it returns nil a FRESH instance on the same directory calls LoadFromSnapshot (not Load). " +
 			"distinct = (shape, size class, store type, entries); non-trivial = log non-empty or shape is 'empty' (the empty log is a named case), and SaveSnapshot returned (error or nil) without dying",
 		Assumptions: []string{"the snapshot is reloaded by the same peer (its blocks are local)", "entries still being replicated at save time may or may not be in the reloaded state; everything in the log at save time must be"},
 		Cases:       c13Cases,
@@ -33,7 +33,10 @@ func init() {
 	})
 }
 
-var c13Shapes = []string{"empty", "chain", "chain-all-big", "fork", "three-writers", "replicated", "in-progress", "in-progress-then-partition", "writes-during-save", "sibling-closed"}
+var c13Shapes = []string{"empty", "chain", "chain-all-big", "fork", "three-writers", "replicated", "in-progress", "in-progress-then-partition", "writes-during-save", "sibling-closed", "fork-heads-big", "three-writers-heads-big"}
+
+// sizes of the shapes whose HEADS are all big: two or three medium heads together cross the 64 KiB header limit
+var c13HeadSizes = []int{8 * 1024, 11 * 1024, 12*1024 + 300, 13 * 1024, 17 * 1024, 18*1024 + 400, 19 * 1024, 21 * 1024, 27 * 1024}
 var c13Sizes = []int{0, 1, 1024, 27 * 1024, 36 * 1024, 37 * 1024, 47 * 1024, 48 * 1024, 49 * 1024, 60 * 1024, 65535 - 300, 65535, 70 * 1024, 200 * 1024, 300 * 1024}
 
 func c13Cases(tier string, seed int64) []fw.Case {
@@ -46,7 +49,11 @@ func c13Cases(tier string, seed int64) []fw.Case {
 	idx := 0
 	for rep := 0; rep < reps; rep++ {
 		for si, shape := range c13Shapes {
-			for zi, size := range c13Sizes {
+			sizes := c13Sizes
+			if strings.HasSuffix(shape, "-heads-big") {
+				sizes = c13HeadSizes
+			}
+			for zi, size := range sizes {
 				if shape == "empty" && zi > 0 {
 					continue
 				}
@@ -98,7 +105,7 @@ func c13Run(c fw.Case) fw.Verdict {
 		return fw.Verdict{Status: fw.Inconclusive, What: err.Error()}
 	}
 	var others []*sim.Peer
-	nOthers := map[string]int{"sibling-closed": 0, "in-progress-then-partition": 1, "writes-during-save": 1, "empty": 0, "chain": 0, "chain-all-big": 0, "fork": 1, "three-writers": 2, "replicated": 1, "in-progress": 1}[shape]
+	nOthers := map[string]int{"sibling-closed": 0, "in-progress-then-partition": 1, "writes-during-save": 1, "empty": 0, "chain": 0, "chain-all-big": 0, "fork": 1, "three-writers": 2, "fork-heads-big": 1, "three-writers-heads-big": 2, "replicated": 1, "in-progress": 1}[shape]
 	for i := 0; i < nOthers; i++ {
 		o, err := e.W.AddPeer(sim.PeerOpts{})
 		if err != nil {
@@ -138,12 +145,20 @@ func c13Run(c fw.Case) fw.Verdict {
 				return fw.Verdict{Status: fw.Inconclusive, What: "write: " + err.Error()}
 			}
 		}
-	case "fork", "three-writers":
+	case "fork", "three-writers", "fork-heads-big", "three-writers-heads-big":
 		// everybody writes without seeing the others, then P merges everything
 		k := 0
 		for _, s := range append([]iface.Store{sP}, storesOf(db, others)...) {
 			for j := 0; j < 1+n/2; j++ {
-				if err := write(s, k, szOf(k)); err != nil {
+				sz := szOf(k)
+				if strings.HasSuffix(shape, "-heads-big") {
+					// the last entry of every writer - a head of the merged log - is medium-sized
+					sz = rng.Intn(40)
+					if j == n/2 {
+						sz = size - rng.Intn(64)
+					}
+				}
+				if err := write(s, k, sz); err != nil {
 					return fw.Verdict{Status: fw.Inconclusive, What: "write: " + err.Error()}
 				}
 				k++
